@@ -3,8 +3,8 @@
 # Prints DETECTED / MISSED and the first VIOLATION lines.  (-R as 4th arg reverse-applies the patch.)
 P=$1; ID=$2; TIER=${3:-quick}; REV=${4:-}
 [ -z "$(git -C /repo status --porcelain)" ] || { echo "/repo not clean"; exit 2; }
-git -C /repo apply $REV "$P" || { echo "patch does not apply"; exit 2; }
-trap 'git -C /repo checkout -- . ' EXIT
+git -C /repo apply $REV "$P" 2>/dev/null || git -C /repo apply $REV --3way "$P" || { echo "patch does not apply"; git -C /repo reset -q; git -C /repo checkout -- .; exit 2; }
+trap 'git -C /repo reset -q; git -C /repo checkout -- . ' EXIT
 OUT=$(cd /verif && timeout 3000 ./check $ID --tier $TIER 2>&1); rc=$?
 echo "$OUT" | grep -E "^VIOLATION|^  |MACHINERY|KNOWN-FINDING" | head -8
 echo "$OUT" | tail -1
